@@ -25,6 +25,14 @@ STEER = {
           "generated code around a nested class without (or the other way round), long declarations (twenty or more fields), field names that are "
           "prefixes of each other or look like the library's hidden names. A single small change is fine as long as ordinary use and the doc "
           "examples do not expose it. The existing 40 tests must still pass."),
+    'h': ("Look for what only shows at SCALE: a defect that stays invisible while everything is small and appears with more than three or four "
+          "elements in a list, more than three levels of nesting, byte strings longer than eight or sixteen bytes, counts and lengths of 16, 32, 64 and "
+          "more, offsets beyond 64 or 255, more than four fields in a run of the same kind, more than three packets of a class alive at once, more than "
+          "two redefinitions of a class, the fifth or later operation on the same object, more than two threads or processes, the second and later "
+          "chunk of a buffer (io buffers of 4096 / 8192 bytes), caches or tables that change behaviour once they hold a certain number of entries. "
+          "Typical shapes: a threshold or fast path chosen by size, a fixed-size scratch area, a loop that handles the first N items differently, "
+          "a slice bound that is right only for short data, a recursion or stack depth assumption. A single small change is fine as long as "
+          "ordinary use and the doc examples do not expose it. The existing 40 tests must still pass."),
 }
 for i in range(1, 21):
     pid = 'C%02d' % i
